@@ -21,7 +21,7 @@ def evTimes (kind ev : String) : List Nat :=
 
 def handle (s : S) : List String → S × String
   | ["new", kind, idle] => ({ st := { idle := idle.toNat?.getD 1 }, kind := kind }, "ok")
-  | ["op", op, t, _extra, ev, exc] =>
+  | ["op", op, t, extra, ev, exc] =>
     match t.toNat? with
     | none => (s, "bad-op")
     | some tt =>
@@ -38,6 +38,7 @@ def handle (s : S) : List String → S × String
         | "fire" => step s.st (.fire tt)
         | "fireinact" => fireThenInactive s.st tt
         | "activeinact" => (step s.st (.active tt)).bind (step · (.inactive tt))
+        | "inactonly" => step s.st (.inactive tt)
         | _ => none
       -- specification on the implementation's own events
       let idle := s.st.idle
@@ -52,6 +53,10 @@ def handle (s : S) : List String → S × String
             else none) none
       let specBad := specBad.orElse (fun _ => if (op == "fire" || op == "fireinact") && evs.length > 1 then some "one callback delivered several idle events" else none)
       let specBad := specBad.orElse (fun _ =>
+        -- the idle handler is transparent for the lifecycle: the inactive event goes on to the handlers behind it, once
+        if extra.startsWith "inact=" && extra != "inact=1" then
+          some s!"the inactive event passed the idle handler {(extra.drop 6).toString} times on its way to the handlers behind it (operation {op})" else none)
+      let specBad := specBad.orElse (fun _ =>
         -- persistence: a due callback with no read/write for a whole period must deliver (handler active)
         if (op == "fire" || op == "fireinact") && s.isActive && tt ≥ s.lastTouch + idle && tt ≥ s.actAt + idle && evs.isEmpty then
           some s!"no idle event at {tt} although idle since {s.lastTouch}" else none)
@@ -61,6 +66,7 @@ def handle (s : S) : List String → S × String
         | "inactive" => { s with isActive := false }
         | "fireinact" => { s with isActive := false }
         | "activeinact" => { s with isActive := false }
+        | "inactonly" => { s with isActive := false }
         | _ => s
       match specBad with
       | some v => ({ s2 with st := mo.getD s.st }, s!"specviol {v}")
